@@ -437,6 +437,7 @@ def run(ctx):
         if resend:
             conds = A.edge_conditions(wt9, resend[0]) if hasattr(A, "edge_conditions") else []
             gt1 = eq_id = False
+            bounce_targets = []
             for sb, blk in enumerate(wt9.blocks):
                 if blk["cleanup"] or blk["t"]["k"] != "switch" or not A.dominates(wt9, sb, resend[0]):
                     continue
@@ -449,10 +450,19 @@ def run(ctx):
                     gt1 = True
                 if A.ends_with_field(l, "worker_id") and op == "Eq" and r_.k == "const" and on_true:
                     eq_id = True
+                    bounce_targets = list(tt)
             ok10 = gt1 and eq_id
             detail10 = "a Compact message is re-queued only when pool_size > 1 and by one particular worker" if ok10 else \
                 "the compaction bounce is not limited to `pool_size > 1 && worker_id == <one id>` (pool_size>1: %s, one worker: %s): with some pool size every worker re-queues the Compact message and nobody compacts — L0 grows until writers are halted forever" % (gt1, eq_id)
         ctx.ob("R-C14.10", wt9, "some-worker-executes-a-compact-message", ok10, detail10, wt9.loc(resend[0]) if resend else "")
+        if resend and ok10:
+            rc = [b for b, t in wt9.calls() if A.cname(t).startswith("compaction::worker::run")]
+            r_ = A.reach(wt9, bounce_targets, avoid=resend + rc + list(A.error_starts(wt9)))
+            lost = [x for x in wt9.return_blocks() if x in r_]
+            ctx.ob("R-C14.10", wt9, "a-bounced-compact-message-is-queued-again", not lost and bool(rc),
+                   "the worker that leaves compactions to the others puts the message back before it returns" if (not lost and rc) else
+                   "the bouncing worker can return without re-queuing the Compact message (and without compacting): the request is lost whenever that worker receives it",
+                   wt9.loc(resend[0]))
 
     # ---- borrowed obligations (mechanisms owned by other properties that this property's verdict also rests on)
     # single-writer read-modify-write helpers are linearizable only if the snapshot is taken after the lock
